@@ -29,3 +29,6 @@ for u in list(units_of("C05")):
 
 from contracts import lemmas as _L  # noqa: E402
 register(Unit(P, "LEMMA/IMMUT", _L.h_immut, functions=[], replay=S._replay_carry, uses=_L.IMMUT_USES))
+
+from contracts import helpers as _HLP  # noqa: E402
+_HLP.register_under("C09", ["HELPER/validate_data_files", "HELPER/validate_file_exists"])
